@@ -114,6 +114,13 @@ func RunListener(in Sx) (Sx, []string) {
 			return Ints(0, 0, 0, 0, 0, 0, 0, 1, 0), []string{"listen failed"}
 		}
 	}
+	// Listen on an address that is taken: an error (a serve goroutine left behind by it would show up as serve_left after Close)
+	listenErrBad := 0
+	if len(addrs) > 0 {
+		if err := srv.Listen(addrs[0]); err == nil {
+			listenErrBad = 1
+		}
+	}
 	backlog := srv.BacklogChan()
 	var handed int32
 	var conns []net.Conn
@@ -172,7 +179,13 @@ func RunListener(in Sx) (Sx, []string) {
 	returned := make(chan bool, 1)
 	var panics int32
 	go func() {
-		p, _ := Catch(func() { srv.Close() })
+		p, _ := Catch(func() {
+			if seed%2 == 0 {
+				srv.Shutdown() // the alias
+			} else {
+				srv.Close()
+			}
+		})
 		if p {
 			atomic.AddInt32(&panics, 1)
 		}
@@ -264,6 +277,7 @@ func RunListener(in Sx) (Sx, []string) {
 		c.Close()
 	}
 	cmu.Unlock()
+	serveLeft += listenErrBad * 1000 // a failed Listen must not leave a serve goroutine / must fail
 	return Ints(int64(ret), int64(atomic.LoadInt32(&panics)), int64(serveLeft), int64(atomic.LoadInt32(&handed)),
 		int64(atomic.LoadInt32(&dialed)), int64(afterOK), int64(atomic.LoadInt32(&bclosed)), int64(inconcl), int64(stuck)), notes
 }
